@@ -134,6 +134,17 @@ CHECKS = {
                      'only at operation granularity in RunM.',
                 technique='TLA+ spec RunM model-checked by TLC; traces of real (threaded) runs validated by TLC against the TLA+ '
                           'monitor ObsC15'),
+    'C17': dict(obs='ObsC17', ref='4/C17',
+                text='ConcSem.tla states the matching rule over the hierarchy Exception > LookupError > {KeyError, IndexError}, '
+                     'Exception > ValueError with one level of nested Concurrent; Conc.tla lets TLC enumerate all 73 710 pairs '
+                     '(<=3 children incl. nested failures) x (1-2 handler items incl. nested specialisations) x (... or not) and '
+                     'checks the algebraic laws (order/multiplicity irrelevant, ... widens, covariance, exact self match); for '
+                     'every pair the real classes are asked (isinstance, issubclass, a real try/except, class identity, '
+                     'flattened()) and TLC validates the answers against the rule (ObsC17); deep random nestings check flattened().',
+                note='Exhaustive for the chosen hierarchy and sizes. The except-clause disagreement is an open known finding '
+                     '(KF-C17-except-clause).',
+                technique='TLA+ rule ConcSem enumerated and law-checked by TLC (Conc); every pair evaluated on the real classes; '
+                          'answers validated by TLC against the TLA+ monitor ObsC17'),
 }
 
 
